@@ -174,7 +174,38 @@ def eval_clause_value(ex, info, clause_node, st, extra):
     return outs[0][2]
 
 
+def accumulate_pattern(ex, node: ast.For, st: State):
+    """`for v in S: [if COND:] X.append(E)` with X an empty list: by definition the list comprehension
+    `X = [E for v in S if COND]` (a semantics-preserving reading of the loop, no contract involved)"""
+    if node.orelse or len(node.body) != 1 or not isinstance(node.target, ast.Name):
+        return None
+    b = node.body[0]
+    cond = None
+    if isinstance(b, ast.If) and not b.orelse and len(b.body) == 1:
+        cond, b = b.test, b.body[0]
+    if not (isinstance(b, ast.Expr) and isinstance(b.value, ast.Call) and isinstance(b.value.func, ast.Attribute)
+            and b.value.func.attr == "append" and isinstance(b.value.func.value, ast.Name) and len(b.value.args) == 1):
+        return None
+    acc = b.value.func.value.id
+    cur = st.env.get(acc)
+    if not (isinstance(cur, VTup) and not cur.items):
+        return None
+    names_used = {n.id for n in ast.walk(b.value.args[0]) if isinstance(n, ast.Name)} | ({n.id for n in ast.walk(cond) if isinstance(n, ast.Name)} if cond else set())
+    if acc in names_used:
+        return None
+    comp = ast.ListComp(elt=b.value.args[0], generators=[ast.comprehension(target=node.target, iter=node.iter, ifs=[cond] if cond else [], is_async=0)])
+    ast.copy_location(comp, node)
+    ast.fix_missing_locations(comp)
+    from .comps import do_comp
+    v = do_comp(ex, comp, st, "list")
+    st.env[acc] = v
+    return [("fall", st, None)]
+
+
 def do_for(ex, node: ast.For, st: State):
+    r = accumulate_pattern(ex, node, st)
+    if r is not None:
+        return r
     seq, bind = iter_shape(ex, node, st)
     if isinstance(seq, (VTup, VPyList)):
         return unroll(ex, node, st, seq.items, bind)
